@@ -622,7 +622,7 @@ func runC18(rc *RunCtx) {
 		wg.Add(1)
 		go func(k int) {
 			defer wg.Done()
-			hc := (hid + 4 + k) % H
+			hc := (hid + 4 + k/2) % H // replicas in pairs: the same history on two instances at the same moment
 			d, v, inc := runTranscript(rc.Seed, hc, nTx, runtime.Gosched)
 			outs[k] = out{hc, d, v, inc}
 		}(k)
